@@ -86,6 +86,11 @@ class Ctx:
             "input_distribution": self.dist,
         }
         if self.proof["ok"] is not None:
+            # the ok flag is the ground truth: every obligation counted is discharged iff every audited file checked
+            if self.proof["ok"] and not self.proof.get("facts_failed"):
+                self.proof["discharged"] = self.proof["obligations"]
+            else:
+                self.proof["discharged"] = min(self.proof["discharged"], max(0, self.proof["obligations"] - 1))
             cov.update({
                 "obligations": self.proof["obligations"],
                 "discharged": self.proof["discharged"],
